@@ -41,6 +41,13 @@ const c16Source = `{namespace d autoescape="false"}
  * @param b */
 {template .truncate2}{$x|truncate:$n,$b}{/template}
 /** @param x
+ * @param n
+ * @param b */
+{template .truncate2_truncate}{$x|truncate:$n,$b|truncate:100000}{/template}
+/** @param x
+ * @param n */
+{template .truncate_insertWordBreaks}{$x|truncate:$n|insertWordBreaks:100000}{/template}
+/** @param x
  * @param n */
 {template .truncate_escapeUri}{$x|truncate:$n|escapeUri}{/template}
 /** @param x
@@ -302,7 +309,7 @@ type c16Dir struct {
 
 var c16Dirs = []c16Dir{
 	{"escapeUri", false, false}, {"escapeJsString", false, false}, {"json", false, false}, {"changeNewlineToBr", false, false},
-	{"insertWordBreaks", true, false}, {"truncate", true, false}, {"truncate2", true, true},
+	{"insertWordBreaks", true, false}, {"truncate", true, false}, {"truncate2", true, true}, {"truncate2_truncate", true, true}, {"truncate_insertWordBreaks", true, false},
 	{"truncate_escapeUri", true, false}, {"truncate_escapeJsString", true, false}, {"truncate_json", true, false}, {"truncate_changeNewlineToBr", true, false},
 	{"escapeUri_on", false, false}, {"changeNewlineToBr_on", false, false}, {"insertWordBreaks_on", true, false}, {"truncate_on", true, false},
 }
@@ -329,8 +336,11 @@ func c16Judge(e jsx.Engine, d c16Dir, out string, val ref.Value, n int, b bool) 
 		return checkMarkup(out, vs, "<wbr>")
 	case "truncate":
 		return checkTruncate(out, vs, n, true)
-	case "truncate2":
+	case "truncate2", "truncate2_truncate":
+		// (the second directive of the chain has an argument of its own, far above every length here: each directive keeps its own arguments)
 		return checkTruncate(out, vs, n, b)
+	case "truncate_insertWordBreaks":
+		return checkTruncate(decodeRefs(strings.ReplaceAll(out, "<wbr>", "")), vs, n, true)
 	case "truncate_on":
 		return checkTruncate(decodeRefs(out), vs, n, true)
 	}
@@ -407,7 +417,7 @@ func init() {
 		},
 		Setup: func(tier string, seed uint64, config string) string {
 			c16Init()
-			if c16Err != "" && c16Tofu == nil {
+			if c16Err != "" && c16Tofu == nil && !strings.HasPrefix(c16Err, "directive templates do not compile") {
 				return c16Err
 			}
 			// decoder self-tests
@@ -424,6 +434,10 @@ func init() {
 		},
 		Run: func(ctx *fw.Ctx, i int) fw.Result {
 			if c16Tofu == nil {
+				if strings.HasPrefix(c16Err, "directive templates do not compile") {
+					// the fixed file of one-line directive templates is valid Soy: a compiler that refuses it has misread a directive
+					return fw.Result{Verdict: fw.Violated, Key: "valid-directive-templates-rejected", Case: c16Source, Msg: c16Err}
+				}
 				return fw.Result{Verdict: fw.Inconclusive, Key: "setup", Msg: c16Err}
 			}
 			e, _ := engine()
